@@ -2,11 +2,11 @@
 import json
 
 from lib import coqlit as L
-from lib import gen
+from lib import core, gen
 from props import mutcommon as mc
 
 PROP = "C18"
-CORR = "Mut"
+CORR = "C17"          # the drivers of the mutation core and of the re-used query families
 HEADER = mc.HEADER
 CASE_TYPE = "case18"
 DRIVER = "corr_C18"
@@ -77,7 +77,58 @@ def literal(c, o):
     return "(%s, (%s, %s, %s))" % (a, mc.out_lit(b["out"]), mc.heap_lit(b["heap"]), mc.log_lit(b.get("log")))
 
 
-def nontrivial_key(c, o):
+def families(tier, seed):
+    """C18 is decided by two kinds of correspondence: the lock-step of the structural calls (this module's
+    driver) and the read-only queries of C04, C06, C14, C15, C07, C08, C09 re-run on LightNodeMixin trees
+    (harness switch base="light"): their observations must equal the model, i.e. the NodeMixin behaviour"""
+    import sys
+    from props import c04, c06, c07, c08, c09, c14, c15
+    rng = gen.rng_for(seed, PROP + "q")
+    q = 1200 if tier == "quick" else 12000
+    cases, obs, meta = gen_and_run(tier, seed)
+    fams = [{"name": "main", "mod": sys.modules[__name__], "cases": cases, "obs": obs, "literal": literal}]
+
+    def qfam(name, mod, cs, lit, impl, quota):
+        cs = [c for c in cs if "adv" not in c]
+        rng.shuffle(cs)
+        cs = cs[:quota]
+        for c in cs:
+            c["base"] = "light"
+            c["family"] = impl
+            if "cls" in c:
+                c["cls"] = "any"          # the harness' AnyNode trees become LightNodeMixin trees
+        return {"name": name, "mod": mod, "cases": cs, "literal": lit, "spec_is_model": True}
+
+    cs, _ = c04.gen_cases("quick", seed)
+    fams.append(qfam("nav", c04, cs, c04.literal, "C04", q))
+    cs, _ = c15.gen_cases("quick", seed)
+    fams.append(qfam("walk", c15, cs, c15.literal, "C15", q // 2))
+    cs, _ = c06.gen_cases("quick", seed)
+    fams.append(qfam("iter", c06, cs, c06.literal, "C06", q))
+    cs, _ = c14.gen_cases("quick", seed)
+    fams.append(qfam("search", c14, [c for c in cs if not c.get("via")], c14.literal, "C14", q // 2))
+    cs, _ = c07.gen_cases("quick", seed)
+    fams.append(qfam("get", c07, cs, c07.literal, "C07", q))
+    cs, _ = c07.gen_get_cases("quick", seed, True, ["*", "?", "a*", "**"], "C18g")
+    for c in cs:
+        c["glob"] = True
+    fams.append(qfam("glob", c08, cs, c08.literal, "C08", q // 2))
+    cs, _ = c09.gen_cases("quick", seed)
+    fams.append(qfam("render", c09, [c for c in cs if c["mode"] == "rows"], c09.literal, "C09", q // 2))
+    for fam in fams[1:]:
+        fam["obs"] = core.run_impl_parallel(PROP, fam["cases"], tag=fam["name"])
+    meta = dict(meta)
+    meta["rule"] += (" || read-only queries: the quick case sets of C04 (navigation), C15 (Walker), C06 (five iterators "
+                     "with filter/stop/maxlevel), C14 (search), C07/C08 (Resolver get/glob) and C09 (RenderTree rows) "
+                     "re-run on LightNodeMixin trees; each observation must equal the model (= the NodeMixin behaviour)")
+    meta["distribution"] = {"main": meta["distribution"], "queries_on_light_trees": {f["name"]: len(f["cases"]) for f in fams[1:]}}
+    return fams, meta
+
+
+def nontrivial_key(w, o):
+    c = w["case"]
+    if w["family"] != "main":
+        return "q" + json.dumps(c, sort_keys=True, default=str)[:300]
     if not (isinstance(o, dict) and "a" in o and mc.obs_ok(o["a"])):
         return None
     if o["a"].get("nkinds") or o["a"]["out"][0] != "Ok":
@@ -85,8 +136,13 @@ def nontrivial_key(c, o):
     return None
 
 
-def describe(c, o):
-    return {"case": c, "observed": o}
+def describe(w, o):
+    return {"family": w["family"], "case": w["case"], "observed": o}
 
 
-size = mc.size
+def size(w):
+    return mc.size(w["case"]) if w["family"] == "main" else len(json.dumps(w["case"], default=str))
+
+
+def violation_key(w, o):
+    return w["family"]
